@@ -70,6 +70,11 @@ def rand_cell(rng, dt, na):
         if rng.random() < na:
             return 'nan'
         return tok(rng.choice([-2.0, -1.0, 0.0, 0.5, 1.0, 2.0, 3.0, 0.25, 4.0]))
+    if dt == 'float32':
+        # exactly representable in float32, but sums of them are not: 1e8 + 1 needs 27 bits
+        if rng.random() < na:
+            return 'nan'
+        return tok(rng.choice([1e8, -1e8, 1.0, 2.0, 3.0, 0.5, -1.0, 16777216.0]))
     if dt == 'bool':
         return f'b:{rng.randint(0, 1)}'
     if dt == 'object':
@@ -173,6 +178,15 @@ def cases(ctx):
     for i in range(2500 if quick else 8000):
         spec = rand_spec(rng, DT_NUM, min_rows=0 if rng.random() < 0.15 else 1, min_cols=1)
         fn = rng.choice(FNS_RED + FNS_ARG + FNS_CUM)
+        yield mk_case(spec, fn, rng.randint(0, 1), rng.random() < 0.5, rng, all_layouts=True)
+    # a narrow float column next to 64-bit columns: the row dtype is float64 and every block is reduced in it, so the answer is
+    # the exact one whatever the layout (compared with the exact-arithmetic reference; a float32 Series on its own rounds)
+    for i in range(400 if quick else 3000):
+        spec = rand_spec(rng, ['float32', 'float64', 'int64', 'float32'], min_rows=1, min_cols=2)
+        dts = spec_dts(spec)
+        if 'float32' not in dts or not any(d in ('float64', 'int64') for d in dts):
+            continue
+        fn = rng.choice(['sum', 'sum', 'prod', 'mean', 'min', 'max', 'std', 'var'])
         yield mk_case(spec, fn, rng.randint(0, 1), rng.random() < 0.5, rng, all_layouts=True)
     # mixed dtype frames
     for i in range(2500 if quick else 8000):
@@ -369,7 +383,8 @@ def vec_call(s, c):
 def pyref_domain(spec):
     """int64 / float64 columns (row dtype numeric), or Boolean columns only"""
     dts = spec_dts(spec)
-    return bool(dts) and (all(d in ('int64', 'float64') for d in dts) or all(d == 'bool' for d in dts))
+    wide = any(d in ('int64', 'float64') for d in dts)
+    return bool(dts) and (all(d in ('int64', 'float64') or (d == 'float32' and wide) for d in dts) or all(d == 'bool' for d in dts))
 
 
 NAN = float('nan')
@@ -641,6 +656,8 @@ def eval_frame(ctx, c, outs):
             ctx.count('outside_claim_function_undefined')
             return fails
         fails += sub
+    elif 'float32' in dts:
+        ctx.count('narrow_next_to_wide')     # no per-vector Series reference: a float32 Series accumulates in float32
     else:
         ref = reference(c, f_canon)
         ref_errs = [r[1] for _, r in ref if r[0] == 'err']
@@ -682,7 +699,7 @@ def eval_frame(ctx, c, outs):
     return uniq
 
 
-NUMERIC = ('int64', 'float64', 'bool')
+NUMERIC = ('int64', 'float64', 'bool', 'float32')
 
 
 def in_claim(c):
